@@ -131,6 +131,8 @@ func (h *hist) walk(full bool) (*pview, []finding) {
 		utxoTx[op.Hash] = true
 	}
 
+	h.enter("walker: listings / MempoolCheck")
+	defer h.leave()
 	txpool.TxMutex.Lock()
 	locked := true
 	unlock := func() {
